@@ -30,6 +30,7 @@ type evT struct {
 type watchCase struct {
 	Events     []evT    `json:"events"`
 	Subscribed []string `json:"subscribed"` // empty = all
+	StartupFails bool   `json:"startup_fails,omitempty"` // the task exits non-zero in the start-up run (no event yet) and zero when run for an event
 }
 
 var opOf = map[string]fsnotify.Op{"create": fsnotify.Create, "write": fsnotify.Write, "remove": fsnotify.Remove, "rename": fsnotify.Rename, "chmod": fsnotify.Chmod}
@@ -45,6 +46,10 @@ func watchBody(c *watchCase) func() {
 		}
 		r.Stdout, r.Stderr, r.OutputFormat = theSeam, io.Discard, output.FormatRaw
 		t := task.FromCommands(`echo "ev:$EventName:$EventPath"`)
+		if c.StartupFails {
+			// e.g. a linter run on "$EventPath": the start-up run has no event and fails; that must not keep later events from running the task
+			t = task.FromCommands(`echo "ev:$EventName:$EventPath"; test -n "$EventName"`)
+		}
 		t.Name = "wt"
 		w, err := watch.NewWatcher("w", c.Subscribed, nil, nil, t)
 		for attempt := 0; err != nil && strings.Contains(err.Error(), "too many open files") && attempt < 8; attempt++ {
@@ -221,7 +226,7 @@ func watchUnits(res *common.Result) bool {
 			return
 		}
 		if key != "" {
-			if res.AddViolation(common.Violation{Property: "C20", Key: fmt.Sprintf("%s|events=%d|subscribed=%v", key, len(c.Events), c.Subscribed), Desc: fmt.Sprintf("%+v: %s", c, desc), Config: c, Choices: vx.Choices, Events: eventsOf(vx)},
+			if res.AddViolation(common.Violation{Property: "C20", Key: fmt.Sprintf("%s|events=%d|subscribed=%v|startupfails=%v", key, len(c.Events), c.Subscribed, c.StartupFails), Desc: fmt.Sprintf("%+v: %s", c, desc), Config: c, Choices: vx.Choices, Events: eventsOf(vx)},
 				map[string]interface{}{"harness": "rr", "property": "C20", "watch": c, "choices": vx.Choices}) {
 				stop = true
 			}
@@ -250,6 +255,10 @@ func watchUnits(res *common.Result) bool {
 				continue // quick: two-event schedules only with everything subscribed
 			}
 			do(watchCase{Events: append([]evT{}, cur...), Subscribed: s}, b)
+			if si == 0 && len(cur) >= 1 && len(cur) <= 2 {
+				// the start-up run of the task fails: later events must still run it
+				do(watchCase{Events: append([]evT{}, cur...), Subscribed: s, StartupFails: true}, b)
+			}
 		}
 		if len(cur) == maxLen {
 			return
